@@ -1,0 +1,57 @@
+//go:build verif
+
+package kgo
+
+// Verification hooks (build tag "verif"): add-only accessors used by the
+// property checks under /verif. Nothing here is compiled without the tag.
+
+// VerifAckEntry is one pending user acknowledgement: a record offset and the
+// live status value (0 = undecided, otherwise an AckStatus).
+type VerifAckEntry struct {
+	Offset int64
+	Status int8
+}
+
+// VerifAckRange is one acknowledgement range as it would be put on the wire.
+type VerifAckRange struct {
+	First, Last int64
+	Type        int8
+}
+
+// VerifBuildAckRanges runs the share consumer's range builder on the given
+// pending entries (in the given insertion order) and gap ranges.
+func VerifBuildAckRanges(entries []VerifAckEntry, gaps []VerifAckRange) ([]VerifAckRange, bool) {
+	slab := new(shareAckSlab)
+	es := make([]*shareAckState, 0, len(entries))
+	byOff := make(map[int64]*shareAckState)
+	for _, e := range entries {
+		// a record acked twice (renew then terminal) appears twice with the
+		// same state pointer, exactly as in pendingAcks
+		st, ok := byOff[e.Offset]
+		if !ok {
+			st = &shareAckState{offset: e.Offset, slab: slab}
+			byOff[e.Offset] = st
+		}
+		st.status.Store(int32(e.Status))
+		es = append(es, st)
+	}
+	gs := make([]shareAckRange, 0, len(gaps))
+	for _, g := range gaps {
+		gs = append(gs, shareAckRange{firstOffset: g.First, lastOffset: g.Last, ackType: g.Type})
+	}
+	rs, hasRenew := buildAckRanges(es, gs)
+	out := make([]VerifAckRange, 0, len(rs))
+	for _, r := range rs {
+		out = append(out, VerifAckRange{r.firstOffset, r.lastOffset, r.ackType})
+	}
+	return out, hasRenew
+}
+
+// VerifSetMaxDecompressedSize lowers (or restores) the decompression bound so
+// that it is observable with small inputs. It must be called before the
+// decompressor under test is constructed and returns the previous value.
+func VerifSetMaxDecompressedSize(n int64) int64 {
+	old := maxDecompressedSize
+	maxDecompressedSize = n
+	return old
+}
